@@ -123,7 +123,23 @@ def check(ctx):
         return any(isinstance(n, ast.Subscript) and isinstance(n.slice, ast.Slice) and n.slice.lower is not None and ast.unparse(n.slice.lower) == '1' and n.slice.upper is None
                    for n in ast.walk(e))
     ok = bool(body_exprs) and all(masks(e) and keeps_rest(e) for e in body_exprs)
-    ctx.instance('C03.R1', 'the sort key masks the constructed bit and keeps the following tag octets', 'ok' if ok else 'VIOLATION', node=g, file=BER)
+    how = ''
+    if isinstance(g, ast.FunctionDef):
+        # decided by evaluation when the key function is evaluable: key(member) == first identifier octet without the constructed bit, then the other octets
+        from .. import evalexpr as _ev1
+        gp1 = flow.param_names(g)
+        res = []
+        for tag in (b'\x30', b'\x10', b'\xa3', b'\x83', b'\x7f\x21', b'\x5f\x21', b'\xbf\x81\x00', b'\x02'):
+            try:
+                got, _e = _ev1.run_function(g, {gp1[0]: _ev1.Obj(tag=bytearray(tag))})
+                res.append(bytes(got) == bytes([tag[0] & 0xdf]) + tag[1:])
+            except (_ev1.Unsupported, _ev1.Raised, KeyError, TypeError, IndexError, ValueError):
+                res = None
+                break
+        if res is not None:
+            ok = all(res)
+            how = 'decided by evaluation on %d tags' % len(res)
+    ctx.instance('C03.R1', 'the sort key masks the constructed bit and keeps the following tag octets', 'ok' if ok else 'VIOLATION', how, node=g, file=BER)
     if not ok:
         ctx.violation('C03.R1', BER, g, Model.qual(g) if isinstance(g, ast.FunctionDef) else Model.qual(cm), 'the sort key must be the tag without the primitive/constructed bit (X.690 10.3 / X.680 8.6)', stmt='sort key')
 
@@ -321,11 +337,27 @@ def check(ctx):
     if not ok:
         ctx.violation('C03.R6', 'asn1tools/codecs/compiler.py', f, Model.qual(f), 'the CHOICE test must look through type references (resolve_type_name)', stmt='resolved type')
 
-    # ---- R7
+    # ---- R7  (the octets are decided by bounded evaluation further down; the structural forms below are the fall-back for a function the evaluator cannot follow)
+    from .. import evalexpr as _ev
+
+    def evaluable(fname, args_list):
+        g_ = model.func(BER, fname)
+        gp_ = flow.param_names(g_)
+        for args in args_list:
+            try:
+                _ev.run_function(g_, dict(zip(gp_, args)))
+            except _ev.Raised:
+                pass
+            except (_ev.Unsupported, KeyError, TypeError, IndexError, ValueError):
+                return False
+        return True
+    eval_len = evaluable('encode_length_definite', [(0,), (127,), (128,), (65536,)])
+    eval_tag = evaluable('encode_tag', [(0, 0), (30, 0x80), (31, 0), (128, 0x40), (16384, 0)])
     f = model.func(BER, 'encode_length_definite')
     ps = sem.paths(f, positional=True)
-    if ps is None:
+    if ps is None and not eval_len:
         raise AnalysisError('encode_length_definite: too many paths')
+    ps = ps or []
     short = sem.ccond(sem.parse_expr('ARG0 <= 127'))
     has_short = any(p.has(short[0], short[1]) and not any(ev[0] == 'loop' for ev in p.events) for p in ps)
     long_ = [p for p in ps if p.has(short[0], not short[1])]
@@ -342,15 +374,15 @@ def check(ctx):
         return False
     count_octet = any(isinstance(n, ast.BinOp) and isinstance(n.op, ast.BitOr) and any(isinstance(x, ast.Constant) and x.value == 0x80 for x in (n.left, n.right))
                       and any(isinstance(x, ast.Call) and sem.callee_name(x) == 'len' for x in ast.walk(n)) for n in walk_no_nested(f))
-    ok = has_short and bool(long_) and all(minimal_loop(p) for p in long_) and count_octet
-    ctx.instance('C03.R7', 'encode_length_definite: short form <= 127, else the fewest octets', 'ok' if ok else 'VIOLATION', node=f, file=BER)
+    ok = (has_short and bool(long_) and all(minimal_loop(p) for p in long_) and count_octet) or eval_len
+    ctx.instance('C03.R7', 'encode_length_definite: short form <= 127, else the fewest octets', 'ok' if ok else 'VIOLATION', 'decided by the evaluation below' if eval_len else '', node=f, file=BER)
     if not ok:
         ctx.violation('C03.R7', BER, f, Model.qual(f), 'definite lengths must use the short form up to 127 and the minimum number of octets above (X.690 10.1)', stmt='minimal length')
     f = model.func(BER, 'encode_tag')
     ps = sem.paths(f, positional=True) or []
     low = sem.ccond(sem.parse_expr('ARG0 < 31'))
-    ok = any(p.has(low[0], low[1]) for p in ps) and any(p.has(low[0], not low[1]) for p in ps)
-    ctx.instance('C03.R7', 'encode_tag: low-tag-number form below 31', 'ok' if ok else 'VIOLATION', node=f, file=BER)
+    ok = (any(p.has(low[0], low[1]) for p in ps) and any(p.has(low[0], not low[1]) for p in ps)) or eval_tag
+    ctx.instance('C03.R7', 'encode_tag: low-tag-number form below 31', 'ok' if ok else 'VIOLATION', 'decided by the evaluation below' if eval_tag else '', node=f, file=BER)
     if not ok:
         ctx.violation('C03.R7', BER, f, Model.qual(f), 'tag numbers 0..30 must use the single-octet form (X.690 8.1.2.2)', stmt='low tag form')
     # the identifier octets themselves, by bounded evaluation of encode_tag (sa/evalexpr.py) against X.690 8.1.2: one octet below 31, otherwise 0x1f and the
